@@ -43,3 +43,20 @@ NOT_APPLICABLE = {
     "C15": "SIMD intrinsics (_mm256_fmadd_*, _mm_hadd_*, cpuid dispatch) are outside Kani's and Verus's supported subset and the claim is a rounding tolerance on a 512-term dot product (DESIGN.md 4 C15)",
     "C18": "quantifies over thread schedules; Kani has no threads and Verus would need its own permission types on code with no concurrency primitives to annotate (DESIGN.md 4 C18)",
 }
+
+from . import tierb_c13  # noqa: E402
+
+prop("C13", level="other", stages=[tierb_c13.stage],
+     technique="Kani/CBMC contract of validate_buffers + syntactic frame/argument obligations on the extracted call prefixes",
+     explanation="modular: callee contract (validate_buffers) + caller obligations on each process_into_buffer prefix",
+     )
+
+prop("C16", level="other",
+     technique="Kani/CBMC contracts of the default trait methods against a nondeterministic recording implementor",
+     explanation="process / process_partial_into_buffer / process_partial / VecResampler verified against an abstract core (mock implementor of "
+                 "Resampler<f64> with nondeterministic getters and results that records what it is given), hence for every implementation",
+     level_text="bit-precise CBMC proofs on the real default methods against an abstract core, hence implementation independent; BOUNDED in shape: "
+                "5 concrete (channels, frame-count, partial-length) configurations per method because heap objects of symbolic length make CBMC's "
+                "array post-processing explode (measured > 15 min, > 16 GB); masks, core results, data and probe positions are symbolic",
+     trusted_base=["the mock's recording code in kani/verif_lib__c16.rs", "T = f64 instantiation of the generic default methods"],
+     )
